@@ -74,7 +74,7 @@ PROPS = {
               dict(harness='k_kind_name_roundtrip', klass='complete', schema=['u8'], family='kind-name', target='HaystackKind <-> &str'),
               dict(harness='k_kind_name_injective', klass='bounded', bound='strings of at most 9 ASCII bytes (longest kind name: 8)',
                    target='HaystackKind::try_from(&str)')],
-        witness=None,
+        witness='enum:kinds-grid',
         design_ref='DESIGN.md section 4, C19',
         level_text=('Proof: Verus for all values (each of the 18 kind predicates equals kind_of(v) == K, exactly one is true, '
                     'From<&Value> for HaystackKind equals kind_of, each of the 20 TryFrom<&Value> conversions succeeds exactly for the '
@@ -94,7 +94,7 @@ PROPS = {
               dict(harness='k_number_units_partial_total', klass='complete', schema=['u8', 'u8', 'f64', 'f64'], family='number-units', target='Number partial_cmp/cmp with units'),
               dict(harness='k_coord_laws', klass='complete', schema=['f64'] * 6, family='coord-laws', target='Coord eq/cmp/partial_cmp'),
               dict(harness='k_coord_eq_hash', klass='complete', schema=['f64'] * 4, family='coord-hash', target='Coord eq/hash')],
-        witness=None,
+        witness='enum:eq-laws',
         design_ref='DESIGN.md section 4, C12',
         level_text=('Proof (Kani/CBMC, bit-precise, complete over all non-NaN f64): for the hand-written Eq/Hash/Ord/PartialOrd of Number '
                     '(unit-less, and with units drawn from {none, m, s}) and Coord: == is an equivalence and a clone equals its original; '
@@ -194,7 +194,7 @@ PROPS = {
                ('u_jenc', [r'^DateTime::serialize$']),
                ('u_capi', [r'^haystack_value_get_datetime_date$', r'^haystack_value_get_datetime_time$'])],
         kani=[dict(harness='k_fixed_tz_utc_iff_zero', klass='complete', schema='raw', family='fixed-tz', target='timezone::fixed_timezone', timeout=600)],
-        witness='enum:hayson-roundtrip',
+        witness=['enum:hayson-roundtrip', 'enum:zinc-escape'],
         design_ref='DESIGN.md section 4, C06',
         level_text=('Proof (Kani/CBMC, complete over every offset text +-HH:MM with digits 0-9 0-9 : 0-5 0-9) for the one piece of this '
                     'property that is libhaystack\'s own code: fixed_timezone maps an RFC 3339 offset to the zone UTC exactly when the offset is '
@@ -324,7 +324,7 @@ PROPS = {
                    target='Scanner::make / read_byte (reader contract)', timeout=600),
               dict(harness='k_reader_chunks', klass='bounded', bound='3-byte stream, <= 2 Interrupted results, symbolic chunk lengths',
                    target='Scanner::make / read_byte (reader contract)', timeout=1500, thorough_only=True)],
-        witness='zinc',
+        witness='zinc', enums=['enum:stream-chunks'],
         design_ref='DESIGN.md section 4, C11',
         level_text=('Proof (Verus) of the second sentence only, as a frame argument: in the extracted decoder the reader is an opaque token '
                     'that only Scanner::make and read_byte can touch; every other function of the scanner, lexer and parsers -- including the '
@@ -343,7 +343,7 @@ PROPS = {
                              r'^lemma_str_body_enc$', r'^lemma_str_roundtrip$', r'^parse_ref$', r'^lemma_ref_run_prefix$', r'^lemma_ref_roundtrip$', r'^parse_uri$', r'^lemma_uri_body_plain$', r'^lemma_uri_body_char$', r'^lemma_uri_body_enc$', r'^lemma_uri_roundtrip$', r'^parse_symbol$', r'^lemma_symbol_roundtrip$', r'^parse_xstr_body$', r'^lemma_lit_run_prefix$', r'^lemma_xstr_roundtrip$']),
                ('u_enc', [r'^write_quoted_str$', r'^Str::to_zinc$', r'^Ref::to_zinc$', r'^Uri::to_zinc$', r'^Symbol::to_zinc$', r'^XStr::to_zinc$', r'^lemma_str_escape_inverse$', r'^Marker::to_zinc$', r'^Remove::to_zinc$', r'^Na::to_zinc$', r'^Bool::to_zinc$', r'^Number::to_zinc$'])],
         kani=[dict(harness='k_zinc_keywords', klass='complete', schema=['u8'], family=None, target='to_zinc of Marker/Remove/Na/Bool')],
-        witness='enum:zinc-roundtrip-scalars',
+        witness=['enum:zinc-roundtrip-scalars', 'enum:zinc-escape'],
         design_ref='DESIGN.md section 4, C01',
         level_text=('Proof of decode(encode(v)) == v for two families of values. (1) Strings, all of them (every Unicode string incl. controls, quotes, '
                     'backslash, $, astral planes): Verus proves on the real write_quoted_str (= Str::to_zinc) that the output is " + enc(s) + " with '
